@@ -474,6 +474,38 @@ def keeper_insert(r, F):
     r.require(ok4, g, "the batch's io task receives the collected PieceRefs", "submit_io_task(.., mem::take(&mut self.piece_refs), ..)", "Runner::run does not hand the collected PieceRefs to the batch's io task", ln=c.term.ln)
 
 
+def destroy_clears(r, F):
+    """HybridCache::clear -> Store::destroy -> BlockEngine::destroy: after the queued writes completed (wait awaited first) the disk index is cleared — every shard —
+    and every block's first page is wiped, so that neither a lookup nor a later recovery returns a value from before the clear"""
+    B = "foyer_storage::engine::block"
+    d = [f for f in F.all_fns("P") if re.search(r"engine::BlockEngine::destroy::\{closure#0\}$", f.short)]
+    if len(d) != 1:
+        raise AnchorMissing("BlockEngine::destroy async body not found")
+    d = d[0]
+    errs = [b.idx for b in d.calls_to(r"FromResidual")] + [b.idx for b in d.blocks if not b.cleanup for s_ in b.stmts if s_.k == "assign" and s_.rv.k == "agg" and s_.rv.j.get("variant") == "Err"]
+    w = d.calls_to(r"engine::BlockEngine::<K, V, P>::wait$")
+    c = d.calls_to(r"indexer::Indexer::clear$")
+    tj = d.calls_to(r"future::try_join_all$")
+    aw = [b.idx for b in d.calls_to(r"IntoFuture::into_future$") if w and any(bb == w[0].idx for bb, _ in backslice(d, b.term.args[0], "prov").calls)]
+    ok = len(w) == 1 and len(c) == 1 and bool(aw) and d.must_pass(0, [c[0].idx] + errs) and all(d.dominates(a, c[0].idx) for a in aw) and \
+        any(p.idx in d.reachable([aw[0]]) and c[0].idx in d.reachable([p.idx]) for p in d.calls_to(r"Future::poll$"))
+    r.require(ok, d, "destroy: wait().await, then Indexer::clear", "the index is cleared on every non-error path, after the queued writes were awaited",
+              "BlockEngine::destroy does not clear the disk index after waiting for the queued writes: entries written before clear() are still served afterwards", ln=d.lo)
+    cl = [g for g in F.descendants(d) if g.calls_to(r"reclaimer::BlockCleaner::clean$")]
+    okc = len(tj) == 1 and bool(cl) and d.must_pass(0, [tj[0].idx] + errs)
+    if okc:
+        sl = backslice(d, tj[0].term.args[0], "dep")
+        okc = sl.has_call(r"BlockManager::blocks$") and not any(t.callee and re.search(r"Iterator::(filter|take|skip|step_by|take_while|skip_while|filter_map)$", t.callee) for bb, t in sl.calls)
+        okc = okc and any(b.idx in d.reachable([tj[0].idx]) for b in d.calls_to(r"IntoFuture::into_future$"))
+    r.require(okc, d, "destroy: every block is wiped", "try_join_all over 0..blocks of BlockCleaner::clean, awaited", "BlockEngine::destroy does not wipe the first page of every block: a restart recovers the entries that clear() removed", ln=d.lo)
+    ic = F.method(B + "::indexer::Indexer", "clear")
+    g = [x for x in F.descendants(ic) if x.calls_to(r"HashMap::<K, V, S, A>::clear$|::clear$")]
+    filt = [b for b in ic.calls_to(r"Iterator::(filter|take|skip|step_by|take_while|skip_while|filter_map)$")]
+    okk = bool(g) and g[0].must_pass(0, [b.idx for b in g[0].calls_to(r"::clear$")]) and not filt and bool(ic.calls_to(r"Iterator::for_each$")) and \
+        backslice(ic, ic.calls_to(r"Iterator::for_each$")[0].term.args[0], "dep").has_field("shards")
+    r.require(okk, ic, "Indexer::clear clears every shard", "for_each over self.shards, each cleared under its write lock", "Indexer::clear does not clear every shard of the disk index", ln=ic.lo)
+
+
 def run(chk, F):
     chk.run_rule("C01.load-order", "memory miss -> write queue (keeper) -> disk index; a keeper hit never goes to the engine", 3, common.load_order, F)
     chk.run_rule("C01.key-guard", "a disk hit is handed out only if the decoded key is equivalent to the requested key", 3, common.key_guard, F)
@@ -485,6 +517,7 @@ def run(chk, F):
     chk.run_rule("C01.seq-restore", "recovery restarts the sequence counter strictly above every recovered entry and tombstone", 4, seq_restore, F)
     chk.run_rule("C01.phantom", "a disk-only insert removes the in-memory copy of the key", 1, phantom, F)
     chk.run_rule("C01.both-tiers", "remove and clear reach both tiers on every path", 2, both_tiers, F)
+    chk.run_rule("C01.destroy-clears", "clear(): the disk tier waits for queued writes, clears every index shard and wipes every block", 3, destroy_clears, F)
     chk.run_rule("C01.keeper-insert", "the write queue registers every piece on both table arms; accepted entries keep their reference until the batch io completes", 4, keeper_insert, F)
     from rules import mustcall
     mustcall.run_for(chk, F, "C01")
